@@ -362,6 +362,31 @@ def handle (op : String) (args : Lean.Json) : Except String Lean.Json := do
       | .err => pure (Lean.Json.mkObj [("model", outcome "error")])
       | .panic => pure (Lean.Json.mkObj [("model", outcome "panic")])
       | .fuel => pure (Lean.Json.mkObj [("model", outcome "fuel")])
+  | "purity" => handleValidate args
+  | "concurrent" => handleValidate args
+  | "unmarshal-bytes" => pure (Lean.Json.mkObj [("model", outcome "n/a")])
+  | "resolve-desc" =>
+    let mode := ((getArg args "loader").getStr?).toOption.getD ""
+    if !(mode == "" || mode == "error" || mode == "nil") then
+      return Lean.Json.mkObj [("model", outcome "n/a")]
+    let (st, root) ← decodeStore (getArg args "desc")
+    let base := ((getArg args "base").getStr?).toOption.getD ""
+    let u : Universe := { st := st, root := root, loader := if mode == "" then none else some [], folded := false }
+    match doResolve u base with
+    | .ok rs =>
+      let env := mkVEnv u rs
+      if !Go.guarded env then
+        return Lean.Json.mkObj [("model", outcome "fuel")]
+      let insts : List GoVal ← match getArg args "ginsts" with
+        | .arr gs => gs.toList.mapM decodeGoVal
+        | _ => pure []
+      let verdicts := insts.map fun g =>
+        match Go.validate env Generated.supportedVersions validateFuelN rs.root g with
+        | .ok _ => "valid" | .err => "invalid" | .panic => "panic" | .fuel => "fuel"
+      pure (Lean.Json.mkObj [("model", outcome "resolved" [("verdicts", .arr (verdicts.map str).toArray)])])
+    | .err => pure (Lean.Json.mkObj [("model", outcome "resolve-error")])
+    | .panic => pure (Lean.Json.mkObj [("model", outcome "panic")])
+    | .fuel => pure (Lean.Json.mkObj [("model", outcome "fuel")])
   | "validate" => handleValidate args
   | "decorate" =>
     let ra ← handleValidate args
